@@ -650,4 +650,131 @@ example : (Life2.run (Life2.init 10000 5000 100) (l2demoX.take 9)).1.posOpen 1 =
 
 end Life2
 
+/-! ## audit: further non-vacuity instances and strengthened statements -/
+section Audit
+
+/-- `terminal_no_transition`, `step_terminal_absorbing`, `terminal_absorbing`, `changes_terminal` on a terminal, still
+open action that is then executed again (both ways) and closed by a keeper: the state stays, the world does change -/
+example : AState.completed.complete = none ∧ AState.completed.cancel = none := terminal_no_transition .completed rfl
+example : (actRun ⟨.completed, false, 7, 4, 0, 0, 1, 1000, 1⟩
+      [.execute (.success 9) 1, .execute .soft 1, .close false true false]).state = .completed ∧
+    actRun ⟨.completed, false, 7, 4, 0, 0, 1, 1000, 1⟩ [.execute (.success 9) 1, .execute .soft 1, .close false true false]
+      = ⟨.completed, true, 0, 0, 7, 4, 1, 1000, 1⟩ :=
+  ⟨terminal_absorbing _ _ rfl, by decide⟩
+example : changes ⟨.cancelled, false, 7, 4, 0, 0, 1, 1000, 1⟩ [.execute (.success 9) 1, .close true false false] = 0 :=
+  changes_terminal _ _ rfl
+
+/-- `exactly_once`: the bound 1 is attained (and 0 when the only execution aborts) -/
+example : changes ⟨.pending, false, 100, 5, 0, 0, 0, 1000, 0⟩
+      [.execute .hard 3, .execute .soft 3, .execute (.success 7) 1, .close false true false] = 1 ∧
+    changes ⟨.pending, false, 100, 5, 0, 0, 0, 1000, 0⟩ [.execute .hard 3, .close true false false] = 0 := by decide
+
+/-- `close_policy` (`hc : closed = false`): keeper denied while pending, allowed once cancelled, allowed with `skip` -/
+example : (actStep ⟨.pending, false, 100, 5, 0, 0, 0, 1000, 0⟩ (.close false true false)).isSome = false ∧
+    (actStep ⟨.cancelled, false, 100, 5, 0, 0, 0, 1000, 0⟩ (.close false true false)).isSome = true ∧
+    (actStep ⟨.pending, false, 100, 5, 0, 0, 0, 1000, 0⟩ (.close false true true)).isSome = true := by decide
+example : (actStep ⟨.cancelled, false, 100, 5, 0, 0, 0, 1000, 0⟩ (.close false true false)).isSome = true :=
+  (close_policy _ false true false rfl).2 (.inr ⟨rfl, .inr rfl⟩)
+/-- `pending_close_only_owner` hypotheses are jointly satisfiable (pending, close succeeds) -/
+example : (true : Bool) = true :=
+  pending_close_only_owner ⟨.pending, false, 100, 5, 0, 0, 0, 1000, 0⟩ true false rfl (by decide)
+
+/-- `close_returns_everything` / `soft_failure_cancels` hypotheses -/
+example : actStep ⟨.cancelled, false, 100, 2, 0, 0, 3, 1000, 0⟩ (.close false true false) =
+    some ⟨.cancelled, true, 0, 0, 100, 2, 3, 1000, 0⟩ := by decide
+example : actStep ⟨.pending, false, 100, 5, 0, 0, 0, 1000, 0⟩ (.execute .soft 3) =
+    some ⟨.cancelled, false, 100, 2, 0, 0, 3, 1000, 0⟩ := by decide
+/-- `tokens_conserved_unless_executed` instantiated on a keeper close that really moves tokens -/
+example : (actStep' ⟨.cancelled, false, 100, 2, 0, 0, 3, 1000, 0⟩ (.close false true false)).ownerTokens = 100 ∧
+    (actStep' ⟨.cancelled, false, 100, 2, 0, 0, 3, 1000, 0⟩ (.close false true false)).ownerTokens +
+      (actStep' ⟨.cancelled, false, 100, 2, 0, 0, 3, 1000, 0⟩ (.close false true false)).escrow +
+      (actStep' ⟨.cancelled, false, 100, 2, 0, 0, 3, 1000, 0⟩ (.close false true false)).vault = 0 + 100 + 1000 :=
+  ⟨by decide, tokens_conserved_unless_executed _ _ (fun _ _ h => by cases h)⟩
+/-- `closed_is_final` instantiated -/
+example : actRun ⟨.cancelled, true, 0, 0, 100, 2, 3, 1000, 0⟩ [.execute (.success 1) 1, .close true true true] =
+    ⟨.cancelled, true, 0, 0, 100, 2, 3, 1000, 0⟩ := closed_is_final _ _ rfl
+
+/-- AUDIT (strength): `tokens_conserved_unless_executed` EXCLUDES the successful execution by hypothesis and no
+other theorem of the abstract machine describes it; this is the missing case: a successful execution happens only on an open
+pending action, completes it, commits exactly one market write, leaves exactly `out` in the escrow, touches neither the
+owner's tokens nor (net) the vault, and pays `min fee lamports` to the keeper. (NOTE on the model: the consumed input
+escrow simply disappears and `out` appears — the abstract machine has ONE token type, so conservation across a
+successful execution is not expressible here; it is what `Gmx.Life` / `Gmx.Life2` and C22 track.) -/
+theorem success_execution_spec (w w' : ActWorld) (out fee : Nat)
+    (h : actStep w (.execute (.success out) fee) = some w') :
+    w.state = .pending ∧ w.closed = false ∧ w'.state = .completed ∧ w'.closed = false ∧ w'.escrow = out ∧
+    w'.vault = w.vault ∧ w'.ownerTokens = w.ownerTokens ∧ w'.marketWrites = w.marketWrites + 1 ∧
+    w'.keeperLamports = w.keeperLamports + min fee w.lamports ∧ w'.lamports = w.lamports - min fee w.lamports := by
+  unfold actStep at h
+  by_cases hc : w.closed
+  · simp [hc] at h
+  · cases hs : w.state <;> simp [hc, hs, AState.complete, payFee] at h
+    subst h
+    have hc' : w.closed = false := by simpa using hc
+    by_cases hf : fee ≤ w.lamports
+    · simp [hc', hf, Nat.min_def]
+    · simp [hc', hf, Nat.min_def]
+
+example : actStep ⟨.pending, false, 100, 5, 0, 0, 0, 1000, 0⟩ (.execute (.success 7) 9) =
+    some ⟨.completed, false, 7, 0, 0, 0, 5, 1000, 1⟩ := by decide
+
+/-- the generated table really contains handlers meeting the premises of `cancel_returns_escrow_everywhere` (a
+cancelling site that moved escrow in) and of `fee_paid_last_everywhere` -/
+example : (Gen.C23.sites.filter fun s => s.cancels && s.transfersEscrowIn).length = 5 ∧
+    (Gen.C23.sites.filter fun s => s.paysFeeLast).length = 8 ∧ Gen.C23.sites.length = 10 := by decide
+
+section LifeAudit
+open Gmx.Life
+
+/-- `life_close_policy` / `life_close_returns_escrow`: the owner closes a PENDING deposit and gets the escrow back; a
+keeper cannot; a stranger cannot -/
+example : ((create (init 1000 500 100) 0 0 300 20 false 200000).bind fun s =>
+      (close s (.user 0) 0 0).map fun s' => ((s.users 0).long, (s'.users 0).long, (s'.users 0).short, (s'.deps 0 0).isSome)) =
+    some (700, 1000, 500, false) := by decide
+example : ((create (init 1000 500 100) 0 0 300 20 false 200000).bind fun s =>
+      some ((close s .keeper 0 0).isSome, (close s (.user 1) 0 0).isSome, (close s .admin 0 0).isSome)) =
+    some (false, false, false) := by decide
+
+/-- `life_exec_once` / `life_soft_failure` hypotheses: a completed and a cancelled execution, each followed by a
+rejected second execution -/
+example : ((create (init 1000 500 100) 0 0 300 20 false 200000).bind fun s =>
+      (exec (price s 0) .keeper 0 0 5000 false).map fun r =>
+        (r.2.1, r.2.2, (exec r.1 .keeper 0 0 1 false).isSome, r.1.vaultLong)) =
+    some (.completed, 5000, false, 300) := by decide
+example : ((create (init 1000 500 100) 0 0 300 20 true 200000).bind fun s =>
+      (exec (price s 0) .keeper 0 0 5000 false).map fun r =>
+        (r.2.1, r.2.2, (exec r.1 .keeper 0 0 1 false).isSome, r.1.vaultLong, (close r.1 .keeper 0 0).isSome)) =
+    some (.cancelled, 5000, false, 0, true) := by decide
+
+end LifeAudit
+
+section Life2Audit
+open Gmx.Life2
+
+/-- `l2_close_policy`, `l2_close_returns_escrow`, `l2_close_split` (receiver 2 ≠ owner 0), `l2_receiver_cannot_close`:
+after user 0's deposit for receiver 2 completed (first four ops of `l2demoR`), a keeper close pays the minted 600
+market tokens to the receiver and nothing to the owner; the receiver itself cannot close -/
+example : (Life2.close (Life2.run (Life2.init 10000 5000 100) (l2demoR.take 4)).1 .keeper 0 0 0).map
+      (fun s' => ((s'.users 0).long, (s'.users 0).mt, (s'.users 2).mt, (s'.acts 0 0 0).isSome)) =
+    some (8000, 0, 600, false) := by decide
+example : Life2.close (Life2.run (Life2.init 10000 5000 100) (l2demoR.take 4)).1 (.user 2) 0 0 0 = none :=
+  l2_receiver_cannot_close _ 0 0 0 2 (by decide)
+
+/-- `l2_who_receives_what` hypothesis (`ha`) on that reachable state: the completed deposit holds proceeds only -/
+example : ∃ act, (Life2.run (Life2.init 10000 5000 100) (l2demoR.take 4)).1.acts 0 0 0 = some act ∧ act.state = 1 ∧
+    act.receiver = 2 ∧ Life2.inSide 0 act = (0, 0, 0) ∧ Life2.outSide 0 act = (0, 0, 600) := ⟨_, rfl, rfl, rfl, rfl, rfl⟩
+
+/-- `l2_soft_failure`, `l2_exec_once`, `l2_exec_frame` hypotheses: on the state after the first eight ops of `l2demoR`
+the soft withdrawal `(2, 1, 1)` is cancelled (fee 0 paid), and cannot be executed again -/
+example : (Life2.exec (Life2.run (Life2.init 10000 5000 100) (l2demoR.take 8)).1 .keeper 2 1 1 0 false false 0 0).map
+      (fun r => (r.2.1, r.2.2, (Life2.exec r.1 .keeper 2 1 1 0 false false 0 0).isSome, r.1.vaultLong)) =
+    some (.cancelled, 0, false, 1667) := by decide
+/-- … and a COMPLETED execution (the withdrawal `(2, 1, 0)` on the state after seven ops) -/
+example : (Life2.exec (Life2.run (Life2.init 10000 5000 100) (l2demoR.take 7)).1 .keeper 2 1 0 0 true false 333 50).map
+      (fun r => (r.2.1, r.1.vaultLong, r.1.recLong, Life2.supply r.1)) = some (.completed, 1667, 1667, 500) := by decide
+
+end Life2Audit
+end Audit
+
+
 end Gmx.C23
